@@ -47,12 +47,15 @@ VARIABLES cfg,           \* configuration of this behaviour
           c,             \* client state (record, see C0)
           expect,        \* ghost: what a conforming server sends next on a fresh stream: "Hdr" | "Features" | "None"
           conf,          \* ghost: the server has been protocol-conforming so far (C10 quantifies over those)
+          prev,          \* ghost: how the previous connection of this client ended (what it had reached);
+                         \* the code must not carry any of it over, so behaviours are generated after
+                         \* every kind of previous connection (it is part of the generators' VIEW)
           leak,          \* ghost: something sensitive was written on an unencrypted link
           connSig,       \* ghost: `connected` signals on the current connection
           lastOut, lastSig,   \* observation: what the last step wrote / signalled
           hist           \* observation: the environment's moves so far
 
-vars == <<cfg, c, expect, conf, leak, connSig, lastOut, lastSig, hist>>
+vars == <<cfg, c, expect, conf, prev, leak, connSig, lastOut, lastSig, hist>>
 
 TlsModes   == {"Disabled", "Enabled", "Required"}
 Listeners  == {"Core", "Starttls", "Legacy", "Sasl", "Sasl2", "SmResume", "SmEnable", "Sm", "Bind"}
@@ -314,8 +317,14 @@ NextExpect(r, ev) ==
 
 Min2(n) == IF n > 2 THEN 2 ELSE n
 
+Prev0 == [none |-> TRUE, enc |-> FALSE, authed |-> FALSE, session |-> FALSE, sm |-> FALSE, resumed |-> FALSE, redirected |-> FALSE]
+
 Apply(r, ev) ==
     /\ c' = r.c
+    /\ prev' = IF c.sock = "On" /\ (r.c.sock = "Off" \/ r.c.conn # c.conn)     \* this step ended a connection
+               THEN [none |-> FALSE, enc |-> c.enc, authed |-> c.authed, session |-> c.session, sm |-> c.smEnabled,
+                     resumed |-> c.smResumed, redirected |-> (r.c.conn # c.conn)]
+               ELSE prev
     /\ expect' = NextExpect(r, ev)
     /\ conf' = (conf /\ (ev.k \in {"Connect", "Cut", "Disconnect", "SendIq"} \/ Conforming(c, expect, ev)))
     /\ lastOut' = r.out
@@ -328,7 +337,7 @@ Apply(r, ev) ==
 
 Init ==
     /\ cfg \in Cfgs
-    /\ c = C0 /\ expect = "None" /\ conf = TRUE /\ leak = FALSE /\ connSig = 0 /\ lastOut = <<>> /\ lastSig = <<>> /\ hist = <<>>
+    /\ c = C0 /\ expect = "None" /\ conf = TRUE /\ prev = Prev0 /\ leak = FALSE /\ connSig = 0 /\ lastOut = <<>> /\ lastSig = <<>> /\ hist = <<>>
 
 \* QXmppClient::connectToServer with an explicit host; the socket connects -> handleStart
 Connect ==
